@@ -118,7 +118,7 @@ clause(const char *base) {
 }
 static void
 case_tag_scalars(int zero, int wide) {
-	CASE_TAG = zero ? "[scalar=0]" : (wide ? "[scalar>m bits]" : "");
+	CASE_TAG = zero ? (wide ? "[scalar=0,scalar>m bits]" : "[scalar=0]") : (wide ? "[scalar>m bits]" : "");
 }
 
 /* ------------------------------------------------------------------ native oracle (tiny curves) */
@@ -593,7 +593,7 @@ tiny_bp(int curve_idx) {
 
 	G.x = TC->gx; G.y = TC->gy; G.inf = 0;
 	mult = n_multiples(G, KMAX + 1);
-	if (8 == TC->m || (vh_thorough && (8 == curve_idx || 9 == curve_idx))) {
+	if (8 == TC->m || (vh_thorough && 8 == curve_idx)) {
 		for (k = 0; k <= KMAX; k ++)
 			bp_one(k, mult);
 	} else {
